@@ -347,3 +347,13 @@ def run(ctx):
     ctx.include(c19, {"R19.7"}, "R4.10", "an argument the client sent (an empty string included) must reach the handler as that value, never as an absent optional")
     ctx.include(c12, {"R12.1", "R12.2", "R12.3", "R12.4", "R12.5"}, "R4.7", "path / query / header arguments travel as PLAIN text and must parse back to the same value")
 
+
+
+_run_c04 = run
+
+
+def run(ctx):
+    _run_c04(ctx)
+    # R4.13 per-call state parked in a thread-local is put back on every exit (a failed response must not leak into the next)
+    from .. import tls as _tls
+    _tls.check(ctx, ctx.F.crate("conjure_http"), "R4.13", "each call must reach its handler and return its own response whatever happened before on the same thread")
